@@ -89,6 +89,8 @@ def plan(tier, seed):
         tasks.append({'kind': 'chain', 'cls': cls, 'size': list(size),
                       'seed': seed, 'tier': tier,
                       'cost': 3000 if tier == 'quick' else 20000})
+    if tier == 'thorough':
+        tasks.append({'kind': 'contracts', 'cost': 60000})
     tasks.append({'kind': 'run_once', 'seed': seed, 'tier': tier,
                   'cost': 3000})
     return tasks
@@ -378,6 +380,10 @@ def run_run_once(task, out):
 
 
 def run_task(task, out):
+    if task['kind'] == 'contracts':
+        from pv.pytest_contracts import run_contract_suite
+        run_contract_suite(out, 'is_success', 'is_success')
+        return
     {'small': run_small, 'large': run_large, 'chain': run_chain,
      'run_once': run_run_once}[task['kind']](task, out)
 
